@@ -22,11 +22,11 @@ theorem ante_filter_unwraps_stored_proposals :
 /-- the two ibc client messages are refused at every depth ≥ 1 (table fact, all depths up to the filter's maximum) -/
 theorem ante_filter_blocks_client_msgs_nested :
     ∀ d ∈ List.range (Gen.Ante.config.maxDepth + 1), 1 ≤ d →
-      blocked Gen.Ante.config tyUpdateClient d = true ∧ blocked Gen.Ante.config 100 d = true := by decide
+      blocked Gen.Ante.config tyUpdateClient d = true ∧ blocked Gen.Ante.config tyMisbehaviour d = true := by decide
 
 theorem ante_filter_type_names :
     Gen.Ante.typeNames.lookup tyGroupSubmit = some "github.com/cosmos/cosmos-sdk/x/group.MsgSubmitProposal" ∧
     Gen.Ante.typeNames.lookup tyUpdateClient = some "github.com/cosmos/ibc-go/v8/modules/core/02-client/types.MsgUpdateClient" ∧
-    Gen.Ante.typeNames.lookup 100 = some "github.com/cosmos/ibc-go/v8/modules/core/02-client/types.MsgSubmitMisbehaviour" := by decide
+    Gen.Ante.typeNames.lookup tyMisbehaviour = some "github.com/cosmos/ibc-go/v8/modules/core/02-client/types.MsgSubmitMisbehaviour" := by decide
 
 end DymVerif.LC
